@@ -353,5 +353,217 @@ theorem justifyFullLine_ink [BEq σ] (cw : Char → Nat) (A : StyleAlg σ) (line
   obtain ⟨out, _, h1, h2, h3, h4, _⟩ := justifyFullLine_spec cw A line h w
   exact ⟨out, h1, h2, h3, h4⟩
 
+/-! ### the blanks handed out by `spreadLoop` -/
+
+theorem bump_length : ∀ (l : List Nat) (i : Nat), (bump l i).length = l.length
+  | [], _ => rfl
+  | _ :: _, 0 => rfl
+  | x :: xs, i + 1 => by simp [bump, bump_length xs i]
+
+theorem bump_sum : ∀ (l : List Nat) (i : Nat), i < l.length → (bump l i).sum = l.sum + 1
+  | [], _, h => by simp at h
+  | x :: xs, 0, _ => by simp [bump]; omega
+  | x :: xs, i + 1, h => by
+    simp only [bump, List.sum_cons]
+    rw [bump_sum xs i (by simpa using h)]; omega
+
+theorem spreadLoop_spec (n : Nat) (hn : 0 < n) : ∀ (todo index : Nat) (sp : List Nat), index < n → sp.length = n →
+    (spreadLoop n todo index sp).length = n ∧ (spreadLoop n todo index sp).sum = sp.sum + todo
+  | 0, _, sp, _, hl => by simp [spreadLoop, hl]
+  | todo + 1, index, sp, hi, hl => by
+    simp only [spreadLoop]
+    obtain ⟨h1, h2⟩ := spreadLoop_spec n hn todo ((index + 1) % n) (bump sp (n - index - 1)) (Nat.mod_lt _ hn)
+      (by rw [bump_length, hl])
+    refine ⟨h1, ?_⟩
+    rw [h2, bump_sum _ _ (by omega)]; omega
+
+/-- the `spaces` list: one entry per gap; either every gap is one blank (nothing to hand out) or the blanks fill
+the width exactly -/
+theorem fullSpaces_spec (wordsSize numWords w : Nat) :
+    (fullSpaces wordsSize numWords w).length = numWords - 1 ∧
+    (fullSpaces wordsSize numWords w = List.replicate (numWords - 1) 1 ∨
+      wordsSize + (fullSpaces wordsSize numWords w).sum = w) := by
+  unfold fullSpaces
+  simp only
+  split
+  · rename_i h0
+    exact ⟨by simp, Or.inl rfl⟩
+  · rename_i h0
+    obtain ⟨h1, h2⟩ := spreadLoop_spec (numWords - 1) (by omega) (w - (wordsSize + (numWords - 1))) 0
+      (List.replicate (numWords - 1) 1) (by omega) (by simp)
+    refine ⟨h1, ?_⟩
+    by_cases hlt : wordsSize + (numWords - 1) < w
+    · right
+      rw [h2]; simp; omega
+    · left
+      have : w - (wordsSize + (numWords - 1)) = 0 := by omega
+      rw [this]; rfl
+
+/-! ### the characters of the rebuilt line -/
+
+theorem cellLen_glue (cw : Char → Nat) (hsp : cw ' ' = 1) : ∀ (ps : List (List Char)) (sp : List Nat),
+    sp.length = ps.length - 1 → cellLen cw (glue ps sp) = (ps.map (cellLen cw)).sum + sp.sum
+  | [], sp, h => by
+    have : sp = [] := List.eq_nil_of_length_eq_zero (by simpa using h)
+    subst this; simp [glue, cellLen]
+  | [p], sp, h => by
+    have : sp = [] := List.eq_nil_of_length_eq_zero (by simpa using h)
+    subst this; simp [glue]
+  | p :: q :: rest, [], h => by simp at h
+  | p :: q :: rest, n :: sp, h => by
+    simp only [glue, cellLen_append, cellLen_replicate, hsp]
+    rw [cellLen_glue cw hsp (q :: rest) sp (by simp at h ⊢; omega)]
+    simp only [List.map_cons, List.sum_cons]
+    omega
+
+theorem glue_ones_cons (p q : List Char) (rest : List (List Char)) :
+    glue (p :: q :: rest) (List.replicate ((p :: q :: rest).length - 1) 1) =
+      p ++ ' ' :: glue (q :: rest) (List.replicate ((q :: rest).length - 1) 1) := by
+  simp [glue, List.replicate_succ]
+
+/-- with one blank per gap the rebuilt line is `" ".join(s.split(" "))`, that is `s` -/
+theorem glue_ones_spSplitA (s : List Char) : ∀ cur,
+    glue (spSplitA cur s) (List.replicate ((spSplitA cur s).length - 1) 1) = cur ++ s := by
+  induction s with
+  | nil => intro cur; simp [spSplitA, glue]
+  | cons c rest ih =>
+    intro cur
+    simp only [spSplitA]
+    split
+    · rename_i hc
+      obtain ⟨q, qs, hq⟩ := List.exists_cons_of_ne_nil (spSplitA_ne_nil rest [])
+      have := ih []
+      rw [hq] at this ⊢
+      rw [glue_ones_cons, this, hc]; simp
+    · rw [ih]; simp
+
+theorem cellLen_pyRstrip_le (cw : Char → Nat) (s : List Char) : cellLen cw (pyRstrip s) ≤ cellLen cw s := by
+  have h : cellLen cw s = cellLen cw (s.take (rlen s)) + cellLen cw (s.drop (rlen s)) := by
+    rw [← cellLen_append, List.take_append_drop]
+  rw [pyRstrip_eq_take]; omega
+
+/-- the string-level content of (F2) -/
+theorem glue_fullSpaces_fits (cw : Char → Nat) (hsp : cw ' ' = 1) (s' line : List Char) (w : Nat)
+    (hline : line = s' ∨ line = s' ++ [' ']) (hfit : cellLen cw (pyRstrip line) ≤ w) :
+    cellLen cw (pyRstrip (glue (spSplitA [] s')
+      (fullSpaces ((spSplitA [] s').map (cellLen cw)).sum (spSplitA [] s').length w))) ≤ w := by
+  obtain ⟨hlen, hcase⟩ := fullSpaces_spec ((spSplitA [] s').map (cellLen cw)).sum (spSplitA [] s').length w
+  rcases hcase with hones | hfull
+  · rw [hones, glue_ones_spSplitA, List.nil_append]
+    rcases hline with rfl | rfl
+    · exact hfit
+    · rw [pyRstrip_append_space _ _ (by intro c hc; simp at hc; subst hc; exact space_isSpace)] at hfit
+      exact hfit
+  · have := cellLen_glue cw hsp _ _ hlen
+    have h2 := cellLen_pyRstrip_le cw (glue (spSplitA [] s')
+      (fullSpaces ((spSplitA [] s').map (cellLen cw)).sum (spSplitA [] s').length w))
+    omega
+
+/-- **(F2)** the rebuilt line still fits once stripped, if the line did -/
+theorem justifyFullLine_fits [BEq σ] (cw : Char → Nat) (hsp : cw ' ' = 1) (A : StyleAlg σ) (line : Text σ) (h : Inv line)
+    (w : Nat) (hfit : cellLen cw (pyRstrip line.plain) ≤ w) (out : Text σ)
+    (ho : justifyFullLine Variant.repaired cw A line w = .ok out) :
+    cellLen cw (pyRstrip out.plain) ≤ w := by
+  obtain ⟨out', s', h1, _, _, _, hs', hp⟩ := justifyFullLine_spec cw A line h w
+  rw [ho] at h1
+  cases h1
+  rw [hp]
+  exact glue_fullSpaces_fits cw hsp s' line.plain w hs' hfit
+
+/-! ### the list function -/
+
+/-- what full justification does to a line that is not the last one of its paragraph -/
+def Rebuilt (cw : Char → Nat) (A : StyleAlg σ) (w : Nat) (line out : Text σ) : Prop :=
+  Inv out ∧ out.style = A.null ∧
+  nsv out.view = (nsv line.view).map (fun p => (p.1, A.null :: p.2)) ∧
+  (cellLen cw (pyRstrip line.plain) ≤ w → cellLen cw (pyRstrip out.plain) ≤ w)
+
+/-- the lines handed to full justification and the lines it returns: the last line is returned as it is, every
+other one is rebuilt -/
+def FullRel (cw : Char → Nat) (A : StyleAlg σ) (w : Nat) : List (Text σ) → List (Text σ) → Prop
+  | [], outs => outs = []
+  | [last], outs => outs = [last]
+  | line :: next :: rest, outs =>
+    ∃ out outs', outs = out :: outs' ∧ Rebuilt cw A w line out ∧ FullRel cw A w (next :: rest) outs'
+
+theorem justifyFullLine_rebuilt [BEq σ] (cw : Char → Nat) (hsp : cw ' ' = 1) (A : StyleAlg σ) (line : Text σ) (h : Inv line)
+    (w : Nat) : ∃ out, justifyFullLine Variant.repaired cw A line w = .ok out ∧ Rebuilt cw A w line out := by
+  obtain ⟨out, ho, h1, h2, h3⟩ := justifyFullLine_ink cw A line h w
+  exact ⟨out, ho, h1, h2, h3, fun hfit => justifyFullLine_fits cw hsp A line h w hfit out ho⟩
+
+/-- **(F3)** `Lines.justify(…, "full")` on consistent lines never raises, returns as many lines, the last one
+unchanged and every other one rebuilt (`Rebuilt`: consistent, null base style, the same non-whitespace characters
+with the null style in front of their styles, still fitting once stripped) -/
+theorem justifyFull_spec [BEq σ] (cw : Char → Nat) (hsp : cw ' ' = 1) (A : StyleAlg σ) (w : Nat) :
+    ∀ lines : List (Text σ), (∀ l ∈ lines, Inv l) →
+    ∃ outs, justifyFull Variant.repaired cw A w lines = .ok outs ∧ outs.length = lines.length ∧
+      FullRel cw A w lines outs
+  | [], _ => ⟨[], rfl, rfl, rfl⟩
+  | [last], _ => ⟨[last], rfl, rfl, rfl⟩
+  | line :: next :: rest, h => by
+    obtain ⟨out, ho, hr⟩ := justifyFullLine_rebuilt cw hsp A line (h line (by simp)) w
+    obtain ⟨outs', ho', hl', hr'⟩ := justifyFull_spec cw hsp A w (next :: rest)
+      (fun l hl => h l (List.mem_cons_of_mem _ hl))
+    refine ⟨out :: outs', ?_, by simp [hl'], out, outs', rfl, hr, hr'⟩
+    simp only [justifyFull, ho, ho', bind, Except.bind]
+
+/-- pointwise form: every returned line is the line itself or its rebuilt form -/
+theorem FullRel.pointwise (cw : Char → Nat) (A : StyleAlg σ) (w : Nat) : ∀ (lines outs : List (Text σ)),
+    FullRel cw A w lines outs → ∀ p ∈ lines.zip outs, p.2 = p.1 ∨ Rebuilt cw A w p.1 p.2
+  | [], _, h => by cases h; simp
+  | [last], _, h => by
+    cases h
+    intro p hp
+    simp only [List.zip_cons_cons, List.zip_nil_right, List.mem_singleton] at hp
+    subst hp; exact Or.inl rfl
+  | line :: next :: rest, _, h => by
+    obtain ⟨out, outs', rfl, hr, hrest⟩ := h
+    intro p hp
+    rcases List.mem_cons.mp hp with rfl | hp
+    · exact Or.inr hr
+    · exact FullRel.pointwise cw A w (next :: rest) outs' hrest p hp
+
+theorem FullRel.inv (cw : Char → Nat) (A : StyleAlg σ) (w : Nat) : ∀ (lines outs : List (Text σ)),
+    FullRel cw A w lines outs → (∀ l ∈ lines, Inv l) → ∀ o ∈ outs, Inv o
+  | [], _, h, _ => by cases h; simp
+  | [last], _, h, hi => by cases h; exact hi
+  | line :: next :: rest, _, h, hi => by
+    obtain ⟨out, outs', rfl, hr, hrest⟩ := h
+    intro o ho
+    rcases List.mem_cons.mp ho with rfl | ho
+    · exact hr.1
+    · exact FullRel.inv cw A w (next :: rest) outs' hrest (fun l hl => hi l (List.mem_cons_of_mem _ hl)) o ho
+
+/-- the rebuilt lines of a paragraph keep its ink: with the null style removed from the front of the styles of the
+rebuilt lines, the returned lines show the non-whitespace characters of the lines handed in -/
+theorem FullRel.ink (cw : Char → Nat) (A : StyleAlg σ) (w : Nat) : ∀ (lines outs : List (Text σ)),
+    FullRel cw A w lines outs →
+    (nsv (outs.flatMap Text.view)).map (·.1) = (nsv (lines.flatMap Text.view)).map (·.1)
+  | [], _, h => by cases h; rfl
+  | [last], _, h => by cases h; rfl
+  | line :: next :: rest, _, h => by
+    obtain ⟨out, outs', rfl, hr, hrest⟩ := h
+    rw [List.flatMap_cons, List.flatMap_cons, nsv_append, nsv_append, List.map_append, List.map_append,
+      FullRel.ink cw A w (next :: rest) outs' hrest, hr.2.2.1, List.map_map]
+    rfl
+
+/-! ### a concrete instance -/
+
+/-- "ab cd " with a span on "b c": justified to width 8 -/
+def exLine : Text Nat :=
+  { plain := ['a', 'b', ' ', 'c', 'd', ' '], length := 6, style := 0, spans := [⟨1, 4, 7⟩] }
+
+def exAlg : StyleAlg Nat := ⟨100, fun l => l.sum, fun a b => a == b⟩
+
+example : Inv exLine := by
+  refine ⟨rfl, by decide, ?_⟩
+  intro sp hsp
+  simp only [exLine, List.mem_singleton] at hsp
+  subst hsp; decide
+
+example : (match justifyFullLine Variant.repaired (fun _ => 1) exAlg exLine 8 with
+    | .ok t => t.plain == ['a', 'b', ' ', ' ', ' ', ' ', 'c', 'd'] && t.style == 100
+    | .error _ => false) = true := by decide
+
 end Wrap
 end RichModel
